@@ -5,7 +5,7 @@
 # Works on a scratch copy of /verif under /root/scratch/mutv-<name> whose harness points at <repo-checkout>.
 set -u
 WT="$1"; shift
-V="$(cd "$(dirname "$0")/.." && pwd)"
+V="${MUT_SRC:-$(cd "$(dirname "$0")/.." && pwd)}"
 NAME="$(basename "$WT")"
 S="/root/scratch/mutv-$NAME"
 mkdir -p "$S"
